@@ -24,7 +24,7 @@ def write(mod, ctx, tier, seed, wall, violations, extra_cov=None):
     }
     # runs against a scratch copy (VERIF_REPO: mutant / seeded-change validation) must not
     # overwrite the evidence of the unchanged tree
-    d = os.path.join(env.VERIF, 'evidence' if env.REPO == '/repo' else 'evidence-scratch')
+    d = os.path.join(env.VERIF, 'evidence' if env.REPO == '/repo' and not os.environ.get('VERIF_COV') else 'evidence-scratch')
     os.makedirs(d, exist_ok=True)
     p = os.path.join(d, mod.ID + '.json')
     tmp = p + '.tmp%d' % os.getpid()
